@@ -94,17 +94,39 @@ func (v *Verifier) emit(fr *Frame, st *State, kind, clause string, goal *Term, w
 		return
 	}
 	goal = st.norm(goal)
-	o := &Obligation{Prop: v.prop, Func: v.curFn, Clause: clause, Kind: kind, What: what, Goal: goal, Trace: append([]string{}, st.trace...)}
-	o.Assumps = append([]*Term{}, st.pc...)
-	if goal.IsTrue() {
-		o.Status = "trivial"
+	// hypotheses of an implication become assumptions (so that they inform the simplifier), and a
+	// conjunction is split into one query per conjunct
+	if goal.Op == "=>" {
+		st = st.clone()
+		for goal.Op == "=>" {
+			st.assume(goal.Args[0])
+			goal = st.norm(goal.Args[1])
+		}
+		if st.dead {
+			goal = True
+		}
 	}
-	if v.curCtr != nil {
-		o.Defs = v.curCtr.Defs
-		o.PkgDir = strings.TrimPrefix(strings.TrimPrefix(v.curCtr.Pkg, modulePath), "/")
+	goals := []*Term{goal}
+	if goal.Op == "and" {
+		goals = goal.Args
 	}
-	o.Replay = v.curReplay
-	v.obls = append(v.obls, o)
+	var assumps []*Term
+	for _, g := range goals {
+		o := &Obligation{Prop: v.prop, Func: v.curFn, Clause: clause, Kind: kind, What: what, Goal: g, Trace: append([]string{}, st.trace...)}
+		if !g.IsTrue() && assumps == nil {
+			assumps = st.renormPC()
+		}
+		o.Assumps = assumps
+		if g.IsTrue() {
+			o.Status = "trivial"
+		}
+		if v.curCtr != nil {
+			o.Defs = v.curCtr.Defs
+			o.PkgDir = strings.TrimPrefix(strings.TrimPrefix(v.curCtr.Pkg, modulePath), "/")
+		}
+		o.Replay = v.curReplay
+		v.obls = append(v.obls, o)
+	}
 }
 
 func loadProgram(repo string, patterns []string) (*ssa.Program, []*packages.Package, error) {
